@@ -18,7 +18,8 @@
    time stamp is shown at a whole-minute offset with a 4-digit year (Journal_spec.ts_ok; F13: T02_subminute_refuted),
    the uuid is a uuid text, the commodity is none or an identifier; per posting the account is a name of the
    grammar that the semantic layer accepts (Journal_spec.name_ok, Journal.acct_sem_ok — for the equity account
-   this is STRONGER than the configuration's check Equity_spec.eq_account_ok, which is not sufficient:
+   this is what Settings::try_from enforces since it runs the parser's own account-name rule on the configured
+   name; the earlier check parser::is_valid_id = Equity_spec.eq_account_ok was weaker and not sufficient:
    T02_eq_account_ok_insufficient), the amount lies in the decimal type (96 bits, scale <= 28), the commodity is
    none or an identifier; at least one posting.  T02_export_wf derives it for the export of a source as the
    loader produces it (src_txn_ok), leaving only the decimal domain of the written amounts (amounts_fit). *)
@@ -120,8 +121,10 @@ Theorem T02_model_text_reads : forall cfg md es,
 Proof. exact print_equity_reads. Qed.
 Print Assumptions T02_model_text_reads.
 
-(* Settings' check of the equity account name (eq_account_ok, F20) does not imply the grammar's: "a!b" passes
-   it and the export written with it is rejected by the journal parser *)
+(* why parser::is_valid_id / is_valid_sub_id (Equity_spec.eq_account_ok, the first repair of F20) was not enough
+   as the validation of the equity account name: "a!b" passes it, and the export written with it is rejected by
+   the journal parser.  The code now applies the grammar's account-name rule (found by this extension; the
+   configuration with "a!b" is rejected at start-up: corpus/T02/04), which is eq_acct_ok above *)
 Theorem T02_eq_account_ok_insufficient :
   eq_account_ok t02_bad_eqa = true /\ eq_acct_ok t02_bad_eqa = false
   /\ option_map (fun es => (amounts_fit es, parse_journal (mkCfg 0 0) (print_equity [] es)))
